@@ -471,6 +471,9 @@ func TestC20(t *testing.T) {
 			model.Int64V(7).WithAnn(model.S("x"), model.S("y")), model.StructV().WithAnn(model.S("x")), model.NullOf(model.Symbol).WithAnn(model.S("x")),
 			model.StructV(model.Field{Name: model.S("n"), Val: model.NullOf(model.Symbol)}, model.Field{Name: model.S("m"), Val: model.Int64V(1)}))
 		docs := [][]byte{}
+		// several lobs in one stream (the events writer renders each on its own)
+		lobs := []model.Value{model.ClobV([]byte("ab")), model.ClobV([]byte("cd")), model.BlobV([]byte{1}), model.ClobV(nil), model.BlobV([]byte{2, 3}), model.ListV(model.ClobV([]byte("e")), model.ClobV([]byte("f")))}
+		docs = append(docs, printDoc(lobs, nil).Doc, encodeDoc(lobs, nil).Doc)
 		for _, v := range vals {
 			docs = append(docs, printDoc([]model.Value{v}, nil).Doc, encodeDoc([]model.Value{v}, nil).Doc)
 		}
